@@ -27,7 +27,7 @@ def run(c):
               "(pawn chains with +1/-1 equalities, parity, rank pins, cyclic equalities) and systems with exactly 192 stored constraints (the bit-set limit); oracle: exhaustive "
               "enumeration with early constraint checks (z3 as fallback when its node budget is exceeded); solver answer must equal satisfiability and a returned assignment must satisfy "
               "every range, parity and constraint. distinct_nontrivial = distinct systems with at least one constraint (rel shards)")
-    c.extra.update(satisfiable=st.get("satisfiable", 0), decided_by_enumeration=st.get("decided_by_enumeration", 0), decided_by_z3=st.get("decided_by_z3", 0),
+    c.extra.update(incremental_second_solves_on_the_same_object=st.get("incremental_second_solves", 0), satisfiable=st.get("satisfiable", 0), decided_by_enumeration=st.get("decided_by_enumeration", 0), decided_by_z3=st.get("decided_by_z3", 0),
                    undecided=st.get("undecided", 0), zero_constraint_systems=st.get("zero_constraints", 0), structured=st.get("gen_structured", 0), extreme_offset_systems=st.get("gen_extreme_offsets", 0),
                    at_192_constraint_limit=st.get("gen_192_constraints", 0), asan_systems=sum(r.stats.get("systems", 0) for r in res[shards:]), exhaustive=False)
     c.assumptions += ["systems whose domain product exceeds 4e6 are outside the property's quantifier and not generated (the solver's running time on a wide unconstrained variable "
